@@ -225,7 +225,7 @@ def c11_case(rng, i):
 
 
 def c11_matcher_gen(rng, tier):
-    n = budget(tier, 6000, 200000)
+    n = budget(tier, 40000, 1000000)
     return [c11_case(rng, i) for i in range(n)]
 
 
@@ -256,9 +256,8 @@ def matcher_classify(line, res):
 
 # ---- readable
 def c11_readable_gen(rng, tier):
-    n = budget(tier, 6000, 150000)
+    n = budget(tier, 20000, 400000)
     out = []
-    k = 0
     # every octet as a one-octet label, and inside a label
     for c in range(256):
         out.append("rb%d op=readable name=%s" % (c, gens.hx(bytes([1, c]))))
